@@ -78,6 +78,17 @@ def descriptors() -> dict[str, NodeV]:
                        **{"from": node("From", this=table("T"))})
     d["SELECT qualified"] = node("Select", "stmt", expressions=Lst([node("Star")]),
                                  **{"from": node("From", this=table("T", "S", "D"))})
+    # a fully qualified table in a scalar subquery of the projection, an unqualified one in FROM: the statement still
+    # needs the current database and schema (the FROM table is the shallowest one)
+    d["SELECT qualified subquery in projection"] = node(
+        "Select", "stmt",
+        expressions=Lst([node("Subquery", this=node("Select", expressions=Lst([node("Star")]),
+                                                    **{"from": node("From", this=table("Q", "S", "D"))})),
+                         node("Column", this=ident("C"))]),
+        **{"from": node("From", this=table("T"))})
+    d["SELECT qualified FROM unqualified JOIN"] = node(
+        "Select", "stmt", expressions=Lst([node("Star")]),
+        **{"from": node("From", this=table("Q", "S", "D")), "joins": Lst([node("Join", this=table("T"))])})
     d["UNION"] = node("Union", "stmt", this=node("Select", expressions=Lst([lit("1", False)])),
                       expression=node("Select", expressions=Lst([lit("2", False)])))
     d["INSERT"] = node("Insert", "stmt", this=table("T"),
@@ -158,6 +169,45 @@ def descriptors() -> dict[str, NodeV]:
     d["CALL (Command)"] = node("Command", "stmt", this=Const("CALL"), expression=lit("p()"))
     d["CREATE USER (Command)"] = node("Command", "stmt", this=Const("CREATE"), expression=Const("USER u1"))
     d["GRANT"] = node("Grant", "stmt", securable=table("T"))
+    return d
+
+
+def descriptor(kind: str) -> NodeV:
+    """descriptors()[kind], or — for ``<kind> @schema`` / ``<kind> @full`` — the same statement with its target table
+    T written schema-qualified (S9.T) or fully qualified (D9.S9.T)."""
+    base, _, level = kind.partition(" @")
+    d = descriptors()[base]
+    if not level:
+        return d
+    seen: set[int] = set()
+
+    def find(v):
+        if id(v) in seen:
+            return None
+        seen.add(id(v))
+        if isinstance(v, NodeV):
+            if v.cls == "Table" and v.name == "tbl:T":
+                return v
+            for x in v.args.values():
+                r = find(x)
+                if r is not None:
+                    return r
+        elif isinstance(v, Lst):
+            for x in v.items:
+                r = find(x)
+                if r is not None:
+                    return r
+        return None
+
+    t = find(d)
+    if t is None:
+        raise AnalysisError(f"descriptor {base!r} has no target table T to qualify")
+    t.args["db"] = ident("S9")
+    t.args["db"].parent = t
+    if level == "full":
+        t.args["catalog"] = ident("D9")
+        t.args["catalog"].parent = t
+    t.name = "tbl:" + ("D9.S9.T" if level == "full" else "S9.T")
     return d
 
 
@@ -277,7 +327,7 @@ def run_kind(prog: Program, kind: str, mode: str | None, database_set=True, sche
 
     def run(I: Interp):
         duck, conn, cur = make_session(database_set, schema_set)
-        stmt = descriptors()[kind]
+        stmt = descriptor(kind)
         info = {"transformed": None, "rowcount": None}
         sessions.append((conn, cur, info))
         if prog.has_fn("checks", "is_unqualified_table_expression") and (no_db is not None):
@@ -321,7 +371,7 @@ class FullHooks(ExecHooks):
         if d in ("sqlglot.parse_one",) and isinstance(kwargs.get("read"), Const) and kwargs["read"].v == "snowflake":
             self.parsed += 1
             I.effect("parse-user", args[0] if args else None, site)
-            return descriptors()[self.kind]
+            return descriptor(self.kind)
         if d in ("re.match", "re.search", "re.fullmatch") and self.nop_match is not None and not (I.callstack and "variables" in I.callstack[-1]):
             self.nop_calls.append((d, args, kwargs, site))
             I.effect("call", d, args, kwargs, site)
